@@ -1,10 +1,11 @@
 (* NoPanicFinal.v — C06: the VM-level theorems without the numeric premise (NoPanicNum.v), the
-   witness of finding eval-object-in-constant, non-vacuity examples. *)
+   repair of the findings eval-object-in-constant and eval-object-as-define-name (site 12 is in the
+   excluded set now; their former witnesses are errors), non-vacuity examples. *)
 From Coq Require Import String Lia List.
 From MW Require Import Model.Base Model.F64 Model.Num Model.Datum Model.Lex Model.Parse Model.TransformDef Model.Transform
   Model.VmTypes Model.Heap Model.Gc Model.VmBase Model.Compile Model.Vm Model.Builtins
   Proofs.SymtabProofs Proofs.FlatProofs Proofs.FlatAll Proofs.KeepCalc Proofs.BootMinv
-  Proofs.NoPanicBase Proofs.NoPanicPkg Proofs.NoPanicNum Proofs.NoPanicAll.
+  Proofs.QuoteHeapProofs Proofs.NoPanicBase Proofs.NoPanicPkg Proofs.NoPanicNum Proofs.NoPanicAll.
 Open Scope N_scope.
 
 Theorem builtin_no_vm_panic_u : forall b s, wfm s ->
@@ -33,18 +34,18 @@ Proof. exact (boot_invariant num_panics_ok_holds). Qed.
 
 Theorem eval_no_vm_panic_u : forall prelude s0 s fuel e k,
   boot_with prelude = Some s0 -> evals s0 s -> eval other_builtin fuel e s = RPanic k ->
-  k <> 11 /\ k <> 13 /\ k <> 41 /\ k <> 42 /\ k <> 43 /\ k <> 45 /\ k <> 46 /\ k <> 47 /\ k <> 48 /\ k <> 49 /\ k <> 50 /\ k <> 51.
+  k <> 11 /\ k <> 12 /\ k <> 13 /\ k <> 41 /\ k <> 42 /\ k <> 43 /\ k <> 45 /\ k <> 46 /\ k <> 47 /\ k <> 48 /\ k <> 49 /\ k <> 50 /\ k <> 51.
 Proof. exact (eval_no_vm_panic_plain num_panics_ok_holds). Qed.
 
 Theorem eval_no_vm_panic_booted : forall s0 s fuel e k,
   booted = Some s0 -> evals s0 s -> eval other_builtin fuel e s = RPanic k ->
-  k <> 11 /\ k <> 13 /\ k <> 41 /\ k <> 42 /\ k <> 43 /\ k <> 45 /\ k <> 46 /\ k <> 47 /\ k <> 48 /\ k <> 49 /\ k <> 50 /\ k <> 51.
+  k <> 11 /\ k <> 12 /\ k <> 13 /\ k <> 41 /\ k <> 42 /\ k <> 43 /\ k <> 45 /\ k <> 46 /\ k <> 47 /\ k <> 48 /\ k <> 49 /\ k <> 50 /\ k <> 51.
 Proof. unfold booted. intros s0 s fuel e k. apply eval_no_vm_panic_u. Qed.
 
-(* ------------------------------------------------------------------ finding: site 12 *)
-Definition obj_witness_text : text := S_ "(eval (cons 'quote (cons car '())))"%string.
+(* ------------------------------------------------------------------ site 12 *)
 Definition ok_example_text : text := S_ "(call/cc (lambda (k) (k ((lambda (f . r) (apply f r)) car '(1 2)))))"%string.
 
+(* the data Heap::put_cell rejects (the complement of compile.rs is_datum = [cell_is_datum]) *)
 Fixpoint datum_has_object (c : cell) : bool :=
   match c with
   | CProc _ | CCont | CMacro => true
@@ -53,22 +54,101 @@ Fixpoint datum_has_object (c : cell) : bool :=
   | _ => false
   end.
 
-Definition run_text (t : text) (fuel : nat) : option (res run_result) :=
-  match boot_with [] with
+(* [run_text t fuel]: parse t, evaluate its datum on boot_with [] (all builtins, no prelude);
+   [run_text_booted]: the same on [booted] (with the prelude: list, call/cc as a value, ...) *)
+Definition run_on (b : option vm) (t : text) (fuel : nat) : option (res run_result) :=
+  match b with
   | Some s => match parse_text t with Ok (d, _) => Some (eval other_builtin fuel d s) | _ => None end
   | None => None
   end.
+Definition run_text (t : text) (fuel : nat) : option (res run_result) := run_on (boot_with []) t fuel.
+Definition run_text_booted (t : text) (fuel : nat) : option (res run_result) := run_on booted t fuel.
+Definition is_error (o : option (res run_result)) : bool :=
+  match o with Some (ROk (Failed _ _ _) _) => true | _ => false end.
 
-Lemma obj_witness_run : run_text obj_witness_text 200 = Some (RPanic 12).
-Proof. vm_compute. reflexivity. Qed.
+(* -- finding eval-object-in-constant, REPAIRED (compile.rs is_datum, Model/Compile.v cell_is_datum):
+   Heap::maybe_put_cell of a datum that passes the test can only panic at site 11 (excluded by wfm) *)
+Lemma maybe_put_cell_datum_panic c : forall h s k,
+  cell_is_datum c = true -> maybe_put_cell h s c = Panic k -> k = 11.
+Proof.
+  induction c as [c Hnp Hnv|ca cd IHa IHd|l HF] using cell_ind2; intros h s k D E.
+  - destruct c; cbn [maybe_put_cell cell_is_datum] in *; try discriminate.
+    + exfalso. now apply (Hnp c1 c2).
+    + destruct (new_str s s0) as [sid s1]. destruct (heap_put h (VStr sid)). discriminate.
+    + destruct (heap_put h (VSym s0)). discriminate.
+    + exfalso. now apply (Hnv l).
+  - cbn [cell_is_datum] in D. apply andb_prop in D. destruct D as [Da Dd].
+    cbn [maybe_put_cell] in E.
+    destruct (maybe_put_cell h s ca) as [[[va h1] s1]| |ka|] eqn:Ea; cbn [bind] in E; try discriminate.
+    2:{ injection E as <-. exact (IHa h s ka Da Ea). }
+    destruct (match va with VPtr _ => (va, h1) | _ => heap_put h1 va end) as [pa h2].
+    destruct (maybe_put_cell h2 s1 cd) as [[[vd h3] s3]| |kd|] eqn:Ed; cbn [bind] in E; try discriminate.
+    2:{ injection E as <-. exact (IHd h2 s1 kd Dd Ed). }
+    destruct (match vd with VPtr _ => (vd, h3) | _ => heap_put h3 vd end) as [pd h4].
+    destruct pa; try (injection E as <-; reflexivity).
+    destruct pd; try (injection E as <-; reflexivity).
+    destruct (heap_put h4 (VPair p p0)). discriminate.
+  - cbn [cell_is_datum] in D. cbn [maybe_put_cell] in E.
+    set (elems := fix elems (h : heap) (s : store) (l : list cell) (acc : list vcell) {struct l} :
+                    out (list vcell * heap * store) :=
+                    match l with
+                    | [] => Ok (rev acc, h, s)
+                    | x :: r => do (v, h1, s1) <- maybe_put_cell h s x; elems h1 s1 r (v :: acc)
+                    end) in E.
+    assert (HE : forall l0, Forall (fun c => forall h s k, cell_is_datum c = true ->
+                                             maybe_put_cell h s c = Panic k -> k = 11) l0 ->
+               forallb cell_is_datum l0 = true ->
+               forall h s acc k, elems h s l0 acc = Panic k -> k = 11).
+    { induction l0 as [|x r IHr]; intros Fa Db h0 s0 acc k0 E0; cbn [elems] in E0; [discriminate|].
+      inversion Fa as [|x0 r0 Hx Hr]; subst. cbn [forallb] in Db. apply andb_prop in Db. destruct Db as [Dx Dr].
+      destruct (maybe_put_cell h0 s0 x) as [[[vx hx] sx]| |kx|] eqn:Ex; cbn [bind] in E0; try discriminate.
+      - exact (IHr Hr Dr hx sx (vx :: acc) k0 E0).
+      - injection E0 as <-. exact (Hx h0 s0 kx Dx Ex). }
+    destruct (elems h s l []) as [[[vs h1] s1]| |kv|] eqn:Ev; cbn [bind] in E; try discriminate.
+    + destruct (new_vec s1 vs) as [vid s2]. destruct (heap_put h1 (VVec vid)). discriminate.
+    + injection E as <-. exact (HE l HF D h s [] kv Ev).
+Qed.
 
-(* the witness: on the machine with all builtins loaded, the text parses to ONE datum that contains no
-   procedure object itself (the object is created at run time by `car`'s global binding), and its
-   evaluation panics at site 12 *)
-Theorem refuted_eval_object_in_constant :
-  run_text obj_witness_text 200 = Some (RPanic 12) /\
+(* the constant of ANY (quote d) form, d any cell: the compiler does not reach site 12 *)
+Theorem quote_constant_panic f l tail d s k :
+  compile_expression (S f) l tail (quote_of d) s = RPanic k -> k = 11.
+Proof.
+  change (compile_expression (S f) l tail (quote_of d)) with
+    (if negb (cell_is_datum d) then fail E_OTHER else
+     dom v <- maybe_put_cell_m d; ret (emit (emit (emit_op l OMovImmediate) v) VAcc)).
+  destruct (cell_is_datum d) eqn:D; cbn [negb]; [|discriminate].
+  unfold bindM, maybe_put_cell_m.
+  destruct (maybe_put_cell (hp s) (st s) d) as [[[v h] x]| |k0|] eqn:E; try discriminate.
+  intros H. injection H as <-. exact (maybe_put_cell_datum_panic d _ _ _ D E).
+Qed.
+
+(* the former witnesses: (eval (cons 'quote (cons car '()))) on boot_with [], and on [booted] the five
+   shapes of the finding: quote / vector literal / quasiquote of a procedure, a continuation, a macro *)
+Definition obj_witness_text : text := S_ "(eval (cons 'quote (cons car '())))"%string.
+Definition obj_witness_texts : list text :=
+  [S_ "(eval (list 'quote car))"; S_ "(eval (vector 1 car))"; S_ "(eval (list 'quasiquote (list 1 car)))";
+   S_ "(eval (list 'quote (call/cc (lambda (k) k))))"; S_ "(eval (list 'quote and))"]%string.
+
+Theorem repaired_eval_object_in_constant :
+  is_error (run_text obj_witness_text 200) = true /\
+  forallb (fun t => is_error (run_text_booted t 2000)) obj_witness_texts = true /\
   match parse_text obj_witness_text with Ok (d, None) => datum_has_object d = false | _ => False end.
-Proof. split; vm_compute; reflexivity. Qed.
+Proof. split; [|split]; vm_compute; reflexivity. Qed.
+
+(* -- finding eval-object-as-define-name, REPAIRED (compile.rs compile_define tests is_symbol): compile_define
+   took the car of the head of (define (name . formals) body) as the symbol WITHOUT testing that it is a
+   symbol and handed it to Heap::put_cell: a procedure / continuation / macro object there panicked at
+   site 12.  The witness text parses to ONE datum without any object; the object is made at run time *)
+Definition defname_witness_text : text := S_ "(eval (cons 'define (cons (cons car '()) '(1))))"%string.
+Definition defname_witness_texts : list text :=
+  [S_ "(eval (list 'define (list car 'x) 1))"; S_ "(eval (list 'define (list (call/cc (lambda (k) k)) 'x) 1))";
+   S_ "(eval (list 'define (list and 'x) 1))"; S_ "(define (1 x) 1)"]%string.
+
+Theorem repaired_eval_object_as_define_name :
+  is_error (run_text defname_witness_text 200) = true /\
+  forallb (fun t => is_error (run_text_booted t 2000)) defname_witness_texts = true /\
+  match parse_text defname_witness_text with Ok (d, None) => datum_has_object d = false | _ => False end.
+Proof. split; [|split]; vm_compute; reflexivity. Qed.
 
 (* non-vacuity: a program using a variadic closure, apply, call/cc and a builtin passed as a value runs
    to a value from the same machine; the theorems above apply to it *)
